@@ -12,6 +12,7 @@ mod p_docs;
 mod p_md;
 mod p_gen;
 mod p_upd;
+mod p_yaml;
 
 use std::io::{BufWriter, Write};
 
@@ -36,6 +37,7 @@ fn main() {
         "docs" => p_docs::main(&args[1..], &mut w),
         "gen" => p_gen::main(&args[1..], &mut w),
         "upd" => p_upd::main(&args[1..], &mut w),
+        "yaml" => p_yaml::main(&args[1..], &mut w),
         "consts" => p_consts::main(&args[1..], &mut w),
         x => { eprintln!("unknown subcommand {}", x); std::process::exit(2); }
     }
